@@ -431,6 +431,77 @@ func crossProg(stblKids [][]byte, stss string) []byte {
 	return mkBox("moov", mMvhd(1000, 20, 2), trak)
 }
 
+// crossMfra: ftyp moov (moof mdat) x 2 followed by the mfra the combination describes
+func crossMfra(c map[string]string) []byte {
+	ini := cat(mFtyp("iso6", 0, "iso6", "cmfc"), mkBox("moov", mMvhd(1000, 0, 3), shapeTrak(1, ""), shapeTrak(2, ""), mkBox("mvex", mTrex(1, 0, 0, 0), mTrex(2, 0, 0, 0))))
+	f1 := mSimpleFragment(1, 1, 0, []mSample{{10, 3, 0x02000000, 0}}, mkPayload(3), false)
+	f2 := mSimpleFragment(2, 1, 10, []mSample{{10, 4, 0x02000000, 0}}, mkPayload(4), false)
+	file := cat(ini, f1, f2)
+	real := []int64{int64(len(ini)), int64(len(ini) + len(f1)), int64(len(file))}
+	offsets := func(n int, later bool) []int64 {
+		var o []int64
+		for i := 0; i < n; i++ {
+			v := real[i%len(real)]
+			switch c["offs"] {
+			case "eof":
+				v = int64(len(file)) + 1000 + int64(i)
+			case "zero":
+				v = 0
+			case "desc":
+				v = real[(n-1-i)%len(real)]
+			}
+			if later {
+				v += 8
+			}
+			o = append(o, v)
+		}
+		return o
+	}
+	tfra := func(id int64, offs []int64) []byte {
+		p := cat(be32(id), be32(0), be32(int64(len(offs))))
+		for i, o := range offs {
+			p = cat(p, be32(int64(i*10)), be32(o), []byte{1, 1, 1})
+		}
+		return mkFull("tfra", 0, 0, p)
+	}
+	id2 := int64(2)
+	if c["ids"] == "1-1" {
+		id2 = 1
+	}
+	var kids []byte
+	switch c["tfra1"] {
+	case "e2":
+		kids = cat(kids, tfra(1, offsets(2, false)))
+	case "e1":
+		kids = cat(kids, tfra(1, offsets(1, false)))
+	case "e0":
+		kids = cat(kids, tfra(1, nil))
+	}
+	switch c["tfra2"] {
+	case "e2":
+		kids = cat(kids, tfra(id2, offsets(2, false)))
+	case "e3":
+		kids = cat(kids, tfra(id2, offsets(3, false)))
+	case "e1":
+		kids = cat(kids, tfra(id2, offsets(1, false)))
+	case "e2later":
+		kids = cat(kids, tfra(id2, offsets(2, true)))
+	}
+	size := int64(8 + len(kids) + 16)
+	switch c["mfro"] {
+	case "zero":
+		size = 0
+	case "big":
+		size = int64(len(file)) + 5000
+	case "short":
+		size = 20
+	}
+	if c["mfro"] == "none" {
+		return cat(file, mkBox("mfra", kids))
+	}
+	return cat(file, mkBox("mfra", kids, mkFull("mfro", 0, 0, be32(size))))
+}
+
 func c04CrossRefs(args []string) error {
 	return readLines(argValue(args, "-in", "-"), func(line []byte) error {
 		var c struct {
@@ -448,6 +519,9 @@ func c04CrossRefs(args []string) error {
 			ini := cat(mFtyp("iso6", 0, "iso6", "cmfc"), crossMoov(c.Combo["moov"]))
 			file = cat(ini, crossTraf(c.Combo, len(ini)))
 			id = fmt.Sprintf("G7/traf/moov=%s,tfhd=%s,trun=%s,senc=%s,saiz=%s,saio=%s,sbgp=%s,sgpd=%s", c.Combo["moov"], c.Combo["tfhd"], c.Combo["trun"], c.Combo["senc"], c.Combo["saiz"], c.Combo["saio"], c.Combo["sbgp"], c.Combo["sgpd"])
+		} else if c.Mode == "mfra" {
+			file = crossMfra(c.Combo)
+			id = fmt.Sprintf("G7/mfra/tfra1=%s,tfra2=%s,ids=%s,offs=%s,mfro=%s", c.Combo["tfra1"], c.Combo["tfra2"], c.Combo["ids"], c.Combo["offs"], c.Combo["mfro"])
 		} else {
 			file = crossStbl(c.Combo)
 			id = fmt.Sprintf("G7/stbl/stsd=%s,stts=%s,ctts=%s,stsc=%s,stsz=%s,stco=%s,stss=%s", c.Combo["stsd"], c.Combo["stts"], c.Combo["ctts"], c.Combo["stsc"], c.Combo["stsz"], c.Combo["stco"], c.Combo["stss"])
@@ -460,7 +534,12 @@ func c04CrossRefs(args []string) error {
 					accepted = true // panics are the monitor's business
 				}
 			}()
-			_, err := mp4.DecodeFile(bytes.NewReader(file))
+			var err error
+			if c.Mode == "mfra" {
+				_, err = mp4.DecodeFile(bytes.NewReader(file), mp4.WithDecodeFlags(mp4.DecISMFlag))
+			} else {
+				_, err = mp4.DecodeFile(bytes.NewReader(file))
+			}
 			accepted = err == nil
 		}()
 		emit(J{"id": id, "kind": "file", "hex": hex.EncodeToString(file), "consistent": c.Consistent, "accepted": accepted})
